@@ -34,6 +34,29 @@ CLAIMED = {
             "Bounds: all shape pairs <=3 nodes, equal-size 4-node pairs (<=3 bonds quick, <=4 thorough) with reduced "
             "label domains; element {C,N}, charge {0,1}, hcount {0,1}, order {1,2}; WL-filter paths realise the hashed "
             "labels (solver-driven enumeration there)."),
+    "C08": ("Bounded symbolic model checking of GraphCanonicaliser (generic/wl/morgan/nauty, both module copies), "
+            "CanonicalGraph and SynGraph on the real code: faithfulness (bijection onto 1..N carrying all attributes), "
+            "determinism, soundness (equal signatures imply isomorphic) on all graph pairs, and for the exact back-end "
+            "invariance of canonical graph and signature under every relabelling / insertion order / edge orientation.",
+            "Bounds: graphs <=3 nodes with all relabelings, 4-node graphs (<=4 bonds) under all bijections, C4 and K4-e; "
+            "labels are formatted into strings by the code, so each path is one realised labelled graph and relabelling "
+            "(solver-driven exhaustion); SHA-256 truncation collisions ignored."),
+    "C11": ("Bounded symbolic model checking of Automorphism (count and orbits against the z3 formula over all "
+            "component-wise permutations, labels symbolic), AutoEst (never separates a true orbit) and "
+            "deduplicate_matches_with_anchor (order-preserving sub-list, idempotent) on the real code.",
+            "Bounds: all graphs <=4 nodes (thorough: 5 nodes <=5 bonds, C6, K2,3); element {C,N}, charge {0,1}, order "
+            "{1,2}. The clause 'symmetry pruning during rule application loses nothing' is decided by the reactor "
+            "harness (see C05) and is not part of this check's claim."),
+    "C12": ("Bounded symbolic model checking of both MCSMatcher copies on the real code: every returned mapping is a common "
+            "induced subgraph (formula over symbolic elements/orders), maximum mode returns equal sizes and the formula "
+            "'a larger common induced subgraph exists' is unsatisfiable on every path, directions are mutually inverse.",
+            "Bounds: all pairs <=3x3 nodes plus 4x3/3x4 (<=3 bonds), thorough 4x4; element {C,N}, order {1,2}; bond "
+            "orders are realised by float() in the edge matcher."),
+    "C13": ("Bounded symbolic model checking of GraphCluster.fit/iterative_cluster and BatchCluster.fit/cluster/lib_check "
+            "on the real code: class(i)=class(j) iff the isomorphism formula holds, for every list order (solver-chosen "
+            "permutation), every batch size and one-shot, and incremental classification in arrival order.",
+            "Bounds: lists of 2-3 (thorough 4) graphs over shapes {K1,K2,2K1,P3,K3,K2+K1}, element {C,N}, charge {0,1}, "
+            "order {1,2}; attribute None or node count."),
     "C15": ("Bounded symbolic model checking of the real CRNHyperGraph: every operation code and operand of a history of "
             "<=3 (quick) / <=4 (thorough) edits is a solver variable, every feasible path is explored, and the "
             "representation invariant, frame conditions and copy/merge isolation are checked after every step against "
